@@ -100,6 +100,7 @@ def namedFmt : String → Option Fmt
   | "StickyAssignorUserDataV0" => some stickyV0Fmt
   | "StickyAssignorUserDataV1" => some stickyV1Fmt
   | "MetadataResponseV0" => some metadataV0Fmt
+  | "MetadataResponseV0Guarded" => some metadataV0FmtGuarded
   | _ => none
 
 def step (_ : Unit) (t : List String) : Unit × String :=
